@@ -76,6 +76,6 @@ def describe(tier):
                  + ("1/3 lattice" if tier == "quick" else "complete"),
         "exhaustive": True,
         "witnesses": WITNESSES,
-        "assumptions": ["rain is read from the model's weather matrix row of the step; irrigation from the IrrDay column",
+        "assumptions": ["rain is the value the configured weather table holds for the date (by column name); irrigation from the IrrDay column",
                         "tolerance 1e-6 mm"],
     }
